@@ -215,10 +215,19 @@ theorem badger_iter_forward {m : Map} (hs : Sorted m) (start : Bytes) (end_ : Op
     (BIter.mk' m start end_ false).scan = range m start (effEnd start end_) :=
   BIter.scan_forward hs start end_
 
-/-- hence the forward scans of the two iterator models coincide. -/
-theorem badger_iter_eq_leveldb_forward {m : Map} (hs : Sorted m) (start : Bytes) (end_ : Option Bytes) :
-    (BIter.mk' m start end_ false).scan = (Iter.mk' m start end_ false).scan := by
-  rw [badger_iter_forward hs, iter_forward hs]
+/-- reverse badger iteration visits exactly the in-range entries in descending order, each once —
+the same statement as `iter_reverse` (the bound itself is skipped). -/
+theorem badger_iter_reverse {m : Map} (hs : Sorted m) (start : Bytes) (end_ : Option Bytes) :
+    (BIter.mk' m start end_ true).scan = (range m start (effEnd start end_)).reverse :=
+  BIter.scan_reverse hs start end_
+
+/-- **the repaired Badger iterator scans like the goleveldb/memdb iterator**, for every map, every
+bounds (prefix mode, explicit range, `EmptyValue`) and both directions. -/
+theorem badger_iter_eq_leveldb {m : Map} (hs : Sorted m) (start : Bytes) (end_ : Option Bytes) (rev : Bool) :
+    (BIter.mk' m start end_ rev).scan = (Iter.mk' m start end_ rev).scan := by
+  cases rev with
+  | false => rw [badger_iter_forward hs, iter_forward hs]
+  | true => rw [badger_iter_reverse hs, iter_reverse hs]
 
 /-- regression witness of S-C06: keys `a`, `b`; the prefix scan of `a` returns only `a`. -/
 example : (BIter.mk' [([0x61], [1]), ([0x62], [2])] [0x61] none false).scan = [([0x61], [1])]
